@@ -44,5 +44,5 @@ def main():
         shown[g] += 1
         if shown[g] <= int(os.environ.get('VF_SHOW', '2')):
             print('--', v['key'], 'idx', v['idx'], '::', v['what'][:int(os.environ.get('VF_W','600'))])
-            if os.environ.get('VF_DETAIL'): print('   ', json.dumps(v['detail'])[:3000])
+            if os.environ.get('VF_DETAIL'): print('   ', json.dumps(v['detail'])[:3000]); print('    case:', json.dumps(v['case'])[:3000])
 main()
